@@ -1,0 +1,71 @@
+//go:build verif
+
+package spec
+
+import "sort"
+
+// Verification hooks (build tag verif): observation points for the TLA+ trace
+// validation in /verif. They are inert unless a test harness installs the
+// function variables below.
+
+// VerifTrace, when non-nil, receives the internal events of expansion and resolution.
+var VerifTrace func(ev string, args ...string)
+
+// VerifGate, when non-nil, is called at the boundaries of the critical sections of the
+// resolution cache ("<op>.pre" before the lock is requested, "<op>.in" with the lock held,
+// "<op>.out" just before it is released). It may block: a scheduler uses it as a gate.
+var VerifGate func(point string, cache interface{}, key string)
+
+func verifEv(ev string, args ...string) {
+	if VerifTrace != nil {
+		VerifTrace(ev, args...)
+	}
+}
+
+func verifCirc(ref string, found bool, parents []string) {
+	if VerifTrace != nil {
+		f := "0"
+		if found {
+			f = "1"
+		}
+		VerifTrace("circ", append([]string{ref, f}, parents...)...)
+	}
+}
+
+func verifLoad(url string, fromCache bool) {
+	if VerifTrace != nil {
+		f := "0"
+		if fromCache {
+			f = "1"
+		}
+		VerifTrace("load", url, f)
+	}
+}
+
+func verifGate(point string, s *simpleCache, key string) {
+	if VerifGate != nil {
+		VerifGate(point, s, key)
+	}
+}
+
+// VerifPkgCacheKeys returns the keys of the package-level resolution cache (nil before its
+// lazy initialisation).
+func VerifPkgCacheKeys() []string {
+	if resCache == nil {
+		return nil
+	}
+	resCache.lock.RLock()
+	defer resCache.lock.RUnlock()
+	keys := make([]string, 0, len(resCache.store))
+	for k := range resCache.store {
+		keys = append(keys, k)
+	}
+	sort.Strings(keys)
+	return keys
+}
+
+// VerifIsPkgCache tells whether c is the package-level cache itself.
+func VerifIsPkgCache(c interface{}) bool {
+	s, ok := c.(*simpleCache)
+	return ok && s == resCache && s != nil
+}
